@@ -12,6 +12,7 @@ from vf.hyp import drive, st
 from vf.runner import Collector
 
 ID = "C15"
+EARLY_ATTRIBUTION = True  # region predicates are cheap scans of the stored case
 LEVEL = "exploration"
 RULE = ("Hypothesis-generated valid models (vf/modelgen) decorated with ir_version/producer/domain/model_version, doc strings on model, "
         "graph, nodes, functions and values, metadata_props on every carrier, extra opset imports, used and unused model-local functions, "
